@@ -100,6 +100,86 @@ def forall_loop(callspec):
     return dict(invariant=[('prefix', 'forall|i: int| 0 <= i < vx_it.index@ ==> ' + callspec.replace('ITEM', '#[trigger] self.data@[i]'))])
 
 
+ORDER_SPEC = r'''
+/// canonical order of text selections (the Ord impl): by begin, then by end
+pub open spec fn ts_le(a: TextSelection, b: TextSelection) -> bool { a.begin < b.begin || (a.begin == b.begin && a.end <= b.end) }
+pub open spec fn ts_lt(a: TextSelection, b: TextSelection) -> bool { a.begin < b.begin || (a.begin == b.begin && a.end < b.end) }
+pub open spec fn ts_sorted(s: Seq<TextSelection>) -> bool { forall|i: int, j: int| 0 <= i <= j < s.len() ==> ts_le(s[i], s[j]) }
+impl TextSelectionSet {
+    /// the invariant add() and sort() maintain: a set flagged sorted is in canonical order (which implies the order by
+    /// begin that the relation tests rely on)
+    pub open spec fn inv_lex(&self) -> bool { self.sorted ==> ts_sorted(self.data@) }
+}
+pub proof fn lemma_lex_implies_begin(s: Seq<TextSelection>)
+    ensures ts_sorted(s) ==> forall|i: int, j: int| 0 <= i <= j < s.len() ==> s[i].begin <= s[j].begin,
+{
+    if ts_sorted(s) {
+        assert forall|i: int, j: int| 0 <= i <= j < s.len() implies s[i].begin <= s[j].begin by { assert(ts_le(s[i], s[j])); }
+    }
+}
+pub proof fn lemma_ts_insert(s: Seq<TextSelection>, pos: int, x: TextSelection)
+    requires ts_sorted(s), 0 <= pos <= s.len(),
+        forall|j: int| 0 <= j < pos ==> ts_lt(s[j], x),
+        forall|j: int| pos <= j < s.len() ==> ts_lt(x, s[j]),
+    ensures ts_sorted(s.insert(pos, x)),
+        forall|k: int| 0 <= k < s.len() ==> s.insert(pos, x).contains(#[trigger] s[k]),
+        forall|k: int| 0 <= k < s.insert(pos, x).len() ==> s.contains(#[trigger] s.insert(pos, x)[k]) || s.insert(pos, x)[k] == x,
+        s.insert(pos, x)[pos] == x,
+{
+    let t = s.insert(pos, x);
+    assert forall|i: int, j: int| 0 <= i <= j < t.len() implies ts_le(t[i], t[j]) by {
+        let oi = if i < pos { i } else { i - 1 };
+        let oj = if j < pos { j } else { j - 1 };
+        if i != pos && j != pos { assert(t[i] == s[oi]); assert(t[j] == s[oj]); }
+        else if i == pos && j != pos { assert(t[j] == s[oj]); }
+        else if j == pos && i != pos { assert(t[i] == s[oi]); }
+    }
+    assert forall|k: int| 0 <= k < s.len() implies t.contains(#[trigger] s[k]) by {
+        if k < pos { assert(t[k] == s[k]); } else { assert(t[k + 1] == s[k]); }
+    }
+    assert forall|k: int| 0 <= k < t.len() implies s.contains(#[trigger] t[k]) || t[k] == x by {
+        if k < pos { assert(s[k] == t[k]); } else if k > pos { assert(s[k - 1] == t[k]); }
+    }
+}
+'''
+
+ADD_END = '''        proof {
+            let o = old(self).data@; let n = self.data@;
+            if self.sorted { lemma_lex_implies_begin(n); }
+            if n.len() == o.len() + 1 && !self.sorted {
+                assert(n == o.push(textselection));
+                assert(n[o.len() as int] == textselection);
+                assert forall|k: int| 0 <= k < o.len() implies n.contains(#[trigger] o[k]) by { assert(n[k] == o[k]); }
+                assert forall|k: int| 0 <= k < n.len() implies o.contains(#[trigger] n[k]) || n[k] == textselection by { if k < o.len() { assert(o[k] == n[k]); } }
+            }
+        }'''
+
+ORDER_TRUSTED = r'''
+/// R-outline: stands for `self.data.binary_search(&textselection)`; the body is that expression.  Trusted: std's binary search
+/// over the canonical order, on a slice that is in that order (precondition).
+#[verifier::external_body]
+pub fn vx_ts_binary_search(a: &Vec<TextSelection>, x: &TextSelection) -> (r: Result<usize, usize>)
+    requires ts_sorted(a@),
+    ensures match r {
+        Ok(i) => i < a@.len() && a@[i as int].begin == x.begin && a@[i as int].end == x.end,
+        Err(i) => i <= a@.len() && (forall|j: int| 0 <= j < i ==> ts_lt(a@[j], *x)) && (forall|j: int| i <= j < a@.len() ==> ts_lt(*x, a@[j])),
+    },
+{ unimplemented!() } // a.binary_search(x): the Ord impl of TextSelection is emitted as an inherent `cmp` (R-inherent), verified below against ts_lt
+
+/// R-outline: stands for `ord != Ordering::Equal` (derived PartialEq on std's Ordering carries no Verus specification)
+#[verifier::external_body]
+pub fn vx_ord_not_equal(ord: Ordering) -> (r: bool)
+    ensures r == !(ord == Ordering::Equal),
+{ ord != Ordering::Equal }
+
+/// R-outline: `self.data.sort_unstable()`: a permutation in canonical order
+#[verifier::external_body]
+pub fn vx_ts_sort(a: &mut Vec<TextSelection>)
+    ensures ts_sorted(final(a)@), final(a)@.to_multiset() == old(a)@.to_multiset(),
+{ unimplemented!() } // a.sort_unstable()
+'''
+
+
 def build():
     u = Unit('u_rel', serves=['C13', 'C06'])
     u.use('use std::cmp::Ordering;')
@@ -157,8 +237,44 @@ impl TextSelectionSet {
     u.impl(F, 'impl TextSelection', [
         Fn('begin', props=P, ret='r', ensures=[('begin', 'r == self.begin')]),
         Fn('end', props=P, ret='r', ensures=[('end', 'r == self.end')]),
+        # the overlap part of two ranges, agreeing with the Overlaps relation of appendix A
+        Fn('intersection', props=['C13'], ret='r',
+           requires=[('wf', 'wf(*self) && wf(*other)')],
+           ensures=[('some_iff_overlaps', 'r is Some <==> ((self.begin < other.end && other.begin < self.end) || embeds_s(*self, *other) || embeds_s(*other, *self))'),
+                    ('part', 'r is Some ==> r.unwrap().0.begin == (if self.begin >= other.begin { self.begin } else { other.begin }) && r.unwrap().0.end == (if self.end <= other.end { self.end } else { other.end }) && wf(r.unwrap().0) && r.unwrap().0.intid is None'),
+                    ('nothing_left_iff_embedded', 'r is Some ==> (r.unwrap().1 is None <==> embeds_s(*other, *self)) && (r.unwrap().2 is None <==> embeds_s(*self, *other))'),
+                    ('remainders', '''r is Some ==> (match r.unwrap().1 { Some(x) => x.begin < x.end && embeds_s(*self, x) && (x.end <= other.begin || other.end <= x.begin) && (x.end == r.unwrap().0.begin || x.begin == r.unwrap().0.end), None => true })
+                                   && (match r.unwrap().2 { Some(x) => x.begin < x.end && embeds_s(*other, x) && (x.end <= self.begin || self.end <= x.begin) && (x.end == r.unwrap().0.begin || x.begin == r.unwrap().0.end), None => true })''')]),
     ])
+    u.spec(ORDER_SPEC, 'contracts/u_rel.py:ORDER_SPEC')
+    u.trusted_text(ORDER_TRUSTED, 'external_body outlines: [TextSelection]::binary_search on a slice in canonical order and sort_unstable (std semantics over the Ord impl of TextSelection: begin, then end)')
+    u.impl(F, 'impl Ord for TextSelection', [
+        Fn('cmp', props=['C13'], ret='r',
+           rewrites=[('R-outline', r'ord != Ordering::Equal', 'vx_ord_not_equal(ord)')],
+           ensures=[('canonical_order', '(r == Ordering::Less <==> ts_lt(*self, *other)) && (r == Ordering::Greater <==> ts_lt(*other, *self)) && (r == Ordering::Equal <==> (self.begin == other.begin && self.end == other.end))')]),
+    ], verus_header='impl TextSelection')
     u.impl(F, 'impl TextSelectionSet', [
+        # C13 (precondition side): the sorted flag the set tests rely on is established by sort() and kept by add()
+        # R-chain: add() returns its receiver for chaining; emitted as returning nothing (a returned `&mut Self` would make the
+        # receiver's final value depend on the caller)
+        Fn('add', props=['C13'],
+           sig_rewrites=[('R-chain', r'\s*->\s*&mut Self', '')],
+           # R-brace: the expression of one match arm is put in braces so that a proof step can precede it
+           rewrites=[('R-outline', r'self\.data\.binary_search\(&textselection\)', 'vx_ts_binary_search(&self.data, &textselection)'),
+                     ('R-brace', r'Err\(pos\) => self\.data\.insert\(pos, textselection\),', 'Err(pos) => { proof { lemma_ts_insert(self.data@, pos as int, textselection); } self.data.insert(pos, textselection) }'),
+                     ('R-chain', r'(?m)^\s*self\s*\}\s*\Z', ' '.join(ADD_END.split()) + '\n    }')],
+           requires=[('inv', 'old(self).inv_lex()')],
+           ensures=[('keeps_order', 'final(self).inv_lex() && final(self).inv() && final(self).sorted == old(self).sorted'),
+                    ('has_it', 'exists|k: int| 0 <= k < final(self).data@.len() && final(self).data@[k].begin == textselection.begin && final(self).data@[k].end == textselection.end'),
+                    ('keeps_members', 'forall|k: int| 0 <= k < old(self).data@.len() ==> final(self).data@.contains(#[trigger] old(self).data@[k])'),
+                    ('nothing_else', 'forall|k: int| 0 <= k < final(self).data@.len() ==> old(self).data@.contains(#[trigger] final(self).data@[k]) || final(self).data@[k] == textselection')]),
+        Fn('sort', props=['C13'],
+           rewrites=[('R-outline', r'self\.data\.sort_unstable\(\);', 'vx_ts_sort(&mut self.data);')],
+           requires=[('inv', 'old(self).inv_lex()')],
+           after=[('self.sorted = true;', 'proof { lemma_lex_implies_begin(self.data@); }')],
+           prologue='proof { lemma_lex_implies_begin(self.data@); }',
+           ensures=[('sorted', 'final(self).sorted && final(self).inv_lex() && final(self).inv()'),
+                    ('permutation', 'final(self).data@.to_multiset() == old(self).data@.to_multiset()')]),
         Fn('len', props=P, ret='r', ensures=[('len', 'r == self.data@.len()')]),
         Fn('is_empty', props=P, ret='r', ensures=[('empty', 'r == (self.data@.len() == 0)')]),
         Fn('leftmost', props=P, ret='r', rewrites=SET_RW,
